@@ -38,6 +38,10 @@ type LoopSpec struct {
 	// `loop k reaches <callee|mapupdate> [when E]`: every iteration that completes (comes back to the
 	// head) has passed through such a site (when E holds at the back edge)
 	Reaches []LoopReach
+	// `loop k complete`: the loop runs to exhaustion -- the only way out is the header's own exit
+	// edge (no break, no return from the body)
+	Complete    bool
+	CompleteTag string
 	// programmatic clauses supplied by a plug-in (same role as the textual ones)
 	InvFns []func(env *Env, phis []*ssa.Phi) string
 	ModFns []func(env *Env) string
@@ -212,7 +216,7 @@ func parseContracts(src, pkgName, file string) ([]*Contract, map[string]*define,
 			lastAppend = nil
 		case "loop":
 			f := strings.Fields(rest)
-			if len(f) < 3 {
+			if len(f) < 3 && !(len(f) == 2 && f[1] == "complete") {
 				return nil, nil, fmt.Errorf("%s:%d: loop <n> invariant|modifies|decreases <expr>", file, line)
 			}
 			n, err := strconv.Atoi(f[0])
@@ -236,6 +240,9 @@ func parseContracts(src, pkgName, file string) ([]*Contract, map[string]*define,
 				lastAppend = nil
 			case "decreases":
 				ls.Decreases = append(ls.Decreases, Clause{Text: expr, Line: line, Tag: curTag})
+				lastAppend = nil
+			case "complete":
+				ls.Complete, ls.CompleteTag = true, curTag
 				lastAppend = nil
 			case "reaches":
 				lr := LoopReach{What: expr, Line: line, Tag: curTag}
@@ -556,6 +563,9 @@ func (c *Contract) filterProperty(prop string) {
 			}
 		}
 		l.Reaches = rs
+		if l.Complete && !tagHas(l.CompleteTag, prop) {
+			l.Complete = false
+		}
 		l.Modifies = keep(l.Modifies)
 	}
 }
